@@ -168,7 +168,7 @@ def _cmp(got, want, tol, what):
     if not np.all(np.isfinite(got)):
         return f'{what}: non-finite'
     err = float(np.abs(got - want).max()) if got.size else 0.
-    if err > tol:
+    if not err <= tol:
         return f'{what}: error {err:.3e} > tol {tol:.3e}'
     return None
 
@@ -560,7 +560,7 @@ def func_int_general_runs(n, R, seed, basis, shared):
         H = phi(pts[0] if shared else pts[k])                        # (basis, points)
         back = np.einsum('rjq,ji->riq', A[k], H)
         tol = 1e-9 * np.linalg.cond(H) * np.abs(Y[k]).max()
-        if np.abs(back - Y[k]).max() > tol:
+        if not np.abs(back - Y[k]).max() <= tol:
             return FAIL(f'core {k}: basis expansion does not reproduce the data: {np.abs(back - Y[k]).max():.3e} > {tol:.3e}')
     return PASS
 
